@@ -17,7 +17,13 @@ Inductive case :=
        (obs : res (list (list Z) * list (list Z) * list (list nat)))
 | C2DR (sp : rule_spec) (order : option (list (nat * nat))) (rand : bool) (ps : list (list nat)) (r : nat) (vn : bool)
        (hist1 : list grid) (T1 : nat) (hist2 : list grid) (T2 : nat)
-       (obs : res (list grid * list grid * list (list nat))).
+       (obs : res (list grid * list grid * list (list nat)))
+(* continue: ONE object through a list of successive calls [(history given, timesteps)]; obs = (the history each
+   call returned, the log over all calls) *)
+| C1DS (sp : rule_spec) (order : option (list nat)) (rand : bool) (ps : list (list nat)) (r : nat)
+       (calls : list (list (list Z) * nat)) (obs : res (list (list (list Z)) * list (list nat)))
+| C2DS (sp : rule_spec) (order : option (list (nat * nat))) (rand : bool) (ps : list (list nat)) (r : nat) (vn : bool)
+       (calls : list (list grid * nat)) (obs : res (list (list grid) * list (list nat))).
 
 (* uniform printable output: the history as a list of grids (a 1D row is a one-row grid) and the log of
    the wrapped rule as [c; t] (1D) or [row; col; t] (2D) *)
@@ -39,6 +45,14 @@ Definition model_out (c : case) : res (list grid * list (list nat)) :=
       bind (async_evolve2d_twice sp o rand ps r (if vn then VonNeumann else Moore) h1 T1 h2 T2)
            (fun x => Ok (fst (fst x) ++ [[]] ++ snd (fst x),
                          map (fun e : call2 => [fst (snd (fst e)); snd (snd (fst e)); snd e]) (snd x)))
+  | C1DS sp o rand ps r calls _ =>
+      bind (async_evolve1d_seq sp o rand ps r calls)
+           (fun x => Ok (flat_map (fun rows => map (fun row => [row]) rows ++ [[]]) (fst x),
+                         map (fun e : call1 => [snd (fst e); snd e]) (snd x)))
+  | C2DS sp o rand ps r vn calls _ =>
+      bind (async_evolve2d_seq sp o rand ps r (if vn then VonNeumann else Moore) calls)
+           (fun x => Ok (flat_map (fun gs : list grid => gs ++ [[]]) (fst x),
+                         map (fun e : call2 => [fst (snd (fst e)); snd (snd (fst e)); snd e]) (snd x)))
   end.
 
 Definition observed (c : case) : res (list grid * list (list nat)) :=
@@ -48,6 +62,9 @@ Definition observed (c : case) : res (list grid * list (list nat)) :=
   | C1DR _ _ _ _ _ _ _ _ _ o =>
       bind o (fun x => Ok (map (fun row => [row]) (fst (fst x)) ++ [[]] ++ map (fun row => [row]) (snd (fst x)), snd x))
   | C2DR _ _ _ _ _ _ _ _ _ _ o => bind o (fun x => Ok (fst (fst x) ++ [[]] ++ snd (fst x), snd x))
+  | C1DS _ _ _ _ _ _ o =>
+      bind o (fun x => Ok (flat_map (fun rows => map (fun row => [row]) rows ++ [[]]) (fst x), snd x))
+  | C2DS _ _ _ _ _ _ _ o => bind o (fun x => Ok (flat_map (fun gs : list grid => gs ++ [[]]) (fst x), snd x))
   end.
 
 Definition out_eqb (a b : list grid * list (list nat)) : bool :=
